@@ -2,6 +2,7 @@ package verifh
 
 import (
 	"fmt"
+	"math"
 	"strings"
 
 	"pgregory.net/rapid"
@@ -373,10 +374,22 @@ func genIDs(rt *rapid.T, n int, adversarial bool) []string {
 
 var dyadic = []float64{0, 0.5, 1, 1.5, 2, 3, 4, 5, 7.25, 8, 10, 12.5, 16, 20, 30, 40, 64, 100, 200}
 
+var intDims = []float64{0, 1, 2, 3, 4, 5, 7, 8, 10, 13, 16, 20, 30, 40, 64, 100, 200}
+
+// decimal: values whose sums and halves are NOT exactly representable in binary floating point. A seeded change
+// (seeded/m01) showed that a dyadic-only grid hides comparisons that are only wrong by one ulp.
+var decimal = []float64{0.1, 0.3, 1.1, 2.7, 12.7, 33.3, 40.2, 60.6, 120.3, 1e-3, 99.99, 1.0 / 3.0}
+
+// dyadicOnly is set by the one property whose oracle needs exact arithmetic (C17, power-of-two scaling)
+var dyadicOnly = false
+
 func genDim(rt *rapid.T, label string, allowZero bool) float64 {
 	lo := 0
 	if !allowZero {
 		lo = 1
+	}
+	if !dyadicOnly && chance(rt, label+"_decimal", 1, 3) {
+		return decimal[pick(rt, label+"_dec", len(decimal))]
 	}
 	return dyadic[rapid.IntRange(lo, len(dyadic)-1).Draw(rt, label)]
 }
@@ -424,11 +437,14 @@ func genOptions(rt *rapid.T, c *Case, ids []string, sp OptSpec) {
 		c.Virt = rapid.Bool().Draw(rt, "virt")
 	}
 	dim := func(label string, zero bool) float64 {
-		v := genDim(rt, label, zero)
 		if sp.IntSizes || (sp.IntForNS && c.Pos == PosNS) {
-			return float64(int(v + 0.5))
+			lo := 0
+			if !zero {
+				lo = 1
+			}
+			return intDims[rapid.IntRange(lo, len(intDims)-1).Draw(rt, label+"_int")]
 		}
-		return v
+		return genDim(rt, label, zero)
 	}
 	switch sp.Sizes {
 	case 0:
@@ -483,6 +499,18 @@ func inSplineSafeDomain(c *Case) bool {
 	}
 	if c.NodeSpacing() <= 0 || c.LayerSpacing() <= 0 {
 		return false
+	}
+	if c.Pos == PosNS {
+		// the NetworkSimplex positioner works on an integer grid (C04's quantifier): it rounds the centre distance of
+		// neighbours, so a fractional NodeSpacing below 0.5 leaves neighbours touching - zero-width corridor rectangles
+		if c.NodeSpacing() < 1 || c.NodeSpacing() != math.Trunc(c.NodeSpacing()) {
+			return false
+		}
+		for _, id := range NodeIDs(c.Edges) {
+			if w := c.ConfiguredSize(id).W; w != math.Trunc(w) {
+				return false
+			}
+		}
 	}
 	ids := NodeIDs(c.Edges)
 	h := c.ConfiguredSize(ids[0]).H
